@@ -30,7 +30,7 @@ var anchorFiles = map[string]bool{
 	"pkg/types/map.go": true, "pkg/encoding/assembler.go": true, "pkg/encoding/group.go": true,
 }
 
-var pkgs = []string{"./pkg/symbol", "./pkg/store", "./pkg/process", "./pkg/port", "./pkg/packet", "./pkg/runtime", "./pkg/types", "./pkg/encoding"}
+var pkgs = []string{"./pkg/symbol", "./pkg/store", "./pkg/process", "./pkg/port", "./pkg/packet", "./pkg/runtime", "./pkg/types", "./pkg/encoding", "./pkg/template", "./pkg/spec", "./pkg/value"}
 
 func main() {
 	if len(os.Args) != 3 {
@@ -70,6 +70,7 @@ func main() {
 	genStore(repo, out, ps)
 	genRuntimeFacts(repo, out, ps)
 	genBuckets(repo, out, ps)
+	genFuncFacts(repo, out, ps)
 }
 
 // ---------------------------------------------------------------------------- lock facts
